@@ -167,6 +167,55 @@ CLAIMS = {
              "every step. asn1crypto's decoding of non-canonical diagnostics is outside the model (such scripts are skipped).",
         technique="Coq proof over an executable model of the connection (AES-GCM included) + session-level differential correspondence + before/after search",
         design="4/C07"),
+    "C04": dict(
+        text="Coq theorems (axiom-free, arbitrary block function, hence AES) about the model of DlmsConnection.send / protect / "
+             "encrypt and the receive path: on a connection that uses protection EVERY output of send - any APDU kind, payload, "
+             "protocol state, key, title, suite, counter - is a general-glo-ciphering APDU with the client title, security "
+             "control 0x30+suite and the counter used, in the standard layout, around the GCM protection of the plain encoding "
+             "(which decrypts to exactly that encoding under the configured keys, by C05), or an AARQ / RLRQ whose "
+             "user-information is the glo-initiate-request around the protection of its initiate parameters; there is no "
+             "other branch (with a key missing nothing is sent). ANY unciphered xDLMS APDU arriving on such a connection "
+             "(GET/SET/ACTION responses, data-notification, ...) is refused, changes nothing and is never delivered. "
+             "Correspondence runs every sendable kind in every state and complete sessions on the real connection; the "
+             "search decrypts every real output with OpenSSL and compares it with the plain encoding.",
+        note="'The plain encoding never appears in the output' is not a theorem (a ciphertext may contain any short string); the "
+             "theorem shows every output is built from the protection of the plain encoding, the search adds a substring "
+             "test. An association / release RESPONSE with plain user-information is accepted by the library (the property "
+             "speaks of GET/SET/ACTION responses and notifications).",
+        technique="Coq proof over an executable model of the connection + session-level differential correspondence + OpenSSL decryption of real outputs",
+        design="4/C04"),
+    "C06": dict(
+        text="Coq theorems (axiom-free, arbitrary block function) about the model of the connection, by induction over sessions of "
+             "ANY length and order (protected sends of every kind, HLS replies, receives): the counters passed to the AES-GCM "
+             "primitive with the global key are start, start+1, start+2, ... - the i-th use takes start+i and a step moves the "
+             "counter by 0 or 1 - hence no nonce (system title || counter) is ever used twice, and a protected APDU carries the "
+             "counter it used (C04); on the receive side an APDU is accepted only if its counter is strictly above the stored "
+             "one, which it then replaces, so the counters of the accepted ciphered APDUs of any session are strictly "
+             "increasing: a recorded APDU delivered again, an older one, or one equal to the last accepted is refused. "
+             "Correspondence: random histories on the real connection with the AES-GCM primitive wrapped to record the nonces "
+             "actually used, starting counters up to the 32-bit limit.",
+        note="The HLS reply used to share its nonce with the ACTION request carrying it (repaired: repo fix bb875f9). A first "
+             "meter counter of 0 is refused by the library (stored counter starts at 0, test is 'greater than') - stricter "
+             "than the property, noted only. At 2^32 the counter does not wrap: the operation raises (modelled as such).",
+        technique="Coq proof by induction over operation histories + differential correspondence with recorded nonces",
+        design="4/C06"),
+    "C08": dict(
+        text="Coq theorems (axiom-free, arbitrary block function) about the model of the connection: the reply to the meter's "
+             "challenge is SC || counter || first 12 bytes of the GCM tag over AAD = SC || AK || meter challenge under nonce "
+             "client title || counter (SC = 0x10+suite), and consumes its counter; no service request can be sent while the "
+             "exchange is unfinished (nothing in the two waiting states, only the ACTION request while the reply is due - over "
+             "the generated transition table); and for ANY input bytes: if the connection goes from 'awaiting the meter's "
+             "result' to READY, the input was an ACTION response with status success whose data is an octet string ending in "
+             "the GMAC computed with the configured keys over the client's challenge under the meter's title and the counter "
+             "it carries - so an altered proof, wrong challenge / key / title, error status, missing or malformed data never "
+             "makes the association ready. Correspondence and search: the exchange on the real connection for several "
+             "suites / challenge lengths 8..64 / counters, with bit-altered and structurally different answers and every "
+             "order of the four steps; reply and acceptance are recomputed independently with cryptography's AESGCM.",
+        note="Not a theorem (cannot be): that a proof made with another key / title / challenge differs from the expected GMAC "
+             "(unforgeability); enumerated instead. Bytes between the counter and the last 12 bytes of the meter's answer are "
+             "ignored by the library (observed; the property does not forbid it).",
+        technique="Coq proof over an executable model of the connection and the generated state table + differential correspondence + independent GMAC recomputation",
+        design="4/C08"),
     "C05": dict(
         text="Coq theorems (axiom-free), for an ARBITRARY block function with 16-byte output and hence for AES: protecting a "
              "plaintext yields GCM ciphertext || first 12 tag bytes with nonce = title || 4-byte counter and AAD = "
